@@ -40,6 +40,9 @@ class BufV:
         self.ver = BufV._n
         self.rem, self.label, self.origin = rem, label, origin
         self.total = rem
+        # byte order of multi-byte accesses: None = a ByteBuffer parameter, in the order the callers guarantee (the
+        # module's; every call site that passes a buffer carries that obligation); wrap/allocate/slice give BIG_ENDIAN
+        self.order = None
 
 
 class ArrV:
@@ -228,10 +231,12 @@ class JEval:
                 self.vars[nm] = sym.sym("value", ty, -(1 << (BITS[ty] - 1)), (1 << (BITS[ty] - 1)) - 1)
             else:
                 self.vars[nm] = Opaque("param")
+        self.returned = False
         try:
             self.block(body)
         except Ret as r:
             self.result = r.val
+            self.returned = True
         except Thrown:
             pass
         self.finish()
@@ -881,14 +886,20 @@ class JEval:
         if cls == "ByteBuffer" and name in ("wrap", "allocate"):
             if name == "allocate":
                 b = BufV(self.as_int(args[0]) or const(0, "i32"), "buf", "out")
+                b.order = "big"
                 return b
-            return BufV(self.fresh("len", "i32", 0, 2 ** 31 - 1), "buf", "input")
+            b = BufV(self.fresh("len", "i32", 0, 2 ** 31 - 1), "buf", "input")
+            b.order = "big"
+            self.wrapped = b
+            return b
         if cls == "Arrays":
             if name == "stream":
                 return ("stream", args[0])
             return Opaque("Arrays." + name)
         c = self.jm.classes.get(cls)
         if c is not None:
+            if name in ("fromBytes", "fromPayload") and args and isinstance(args[0], BufV):
+                self.callee_order(args[0], f"{cls}.{name}")
             if name in ("fromBytes",) and args and isinstance(args[0], BufV):
                 return self.nested_parse(cls, args[0])
             if name == "fromPayload" and args and isinstance(args[0], BufV):
@@ -953,6 +964,25 @@ class JEval:
     def buf_call(self, buf, name, args, n):
         return Opaque(name)
 
+    def module_order(self):
+        return "big" if self.jm.big else "little"
+
+    def eff_order(self, buf):
+        return getattr(buf, "order", None) or self.module_order()
+
+    def callee_order(self, buf, what):
+        o = self.eff_order(buf)
+        self.obl("byte-order", o == self.module_order(), f"the buffer handed to {what} is in {o}-endian order (ByteBuffer.wrap, "
+                 f"allocate and slice always give BIG_ENDIAN; the callee reads it as the module's)", role="callee-buffer")
+
+    def set_order(self, buf, args):
+        a = args[0] if args else None
+        if isinstance(a, tuple) and len(a) == 3 and a[0] == "static" and a[1] == "ByteOrder" and a[2] in ("BIG_ENDIAN", "LITTLE_ENDIAN"):
+            buf.order = "big" if a[2] == "BIG_ENDIAN" else "little"
+        else:
+            self.obl("unmodelled", False, "ByteBuffer.order(x) with an unrecognised argument")
+        return buf
+
     def read(self, buf, nbytes, ty, helper=None):
         return self.fresh("rd", ty)
 
@@ -1014,7 +1044,7 @@ class JParse(JEval):
         if name == "hasRemaining":
             return Cond("gt", buf.rem, const(0, "i32"))
         if name == "order":
-            return buf
+            return self.set_order(buf, args) if args else Opaque("order")
         if name == "limit" and not args:
             return buf.total
         if name == "position" and not args:
@@ -1036,6 +1066,7 @@ class JParse(JEval):
         if name == "slice":
             if not args:
                 sub = BufV(buf.rem, None, "sub")
+                sub.order = "big"
                 sub.length = buf.rem
                 sub.parent, sub.pre_rem, sub.len_expr = buf, buf.rem, None
                 return sub
@@ -1044,6 +1075,7 @@ class JParse(JEval):
                 self.obl("unmodelled", False, "slice length")
                 return BufV(self.fresh("len", "i32", 0, 2 ** 31 - 1), None, "sub")
             sub = BufV(ln, None, "sub")
+            sub.order = "big"
             sub.length = ln
             sub.parent, sub.pre_rem, sub.len_expr = buf, buf.rem, ln
             d_ = sym.p_add(self.env.poly(buf.rem), self.env.poly(ln), -1)
@@ -1059,7 +1091,7 @@ class JParse(JEval):
         return Opaque(name)
 
     def read(self, buf, nbytes, ty, helper=None):
-        order = None if nbytes == 1 else self.order
+        order = None if nbytes == 1 else (self.order if helper or not isinstance(buf, BufV) else self.eff_order(buf))
         if not isinstance(buf, BufV):
             self.obl("unmodelled", False, "read from a non-buffer")
             return self.fresh("rd", ty)
@@ -1253,7 +1285,22 @@ class JParse(JEval):
         if new and new[0][0] is None:
             self.dispatch[n0] = (c, new[0][1])
 
+    def consumed_obligation(self):
+        """a parser that owns its whole input -- a child's fromPayload (the payload slice is exactly the child) and the
+        public fromBytes(byte[]) -- returns an object only when nothing is left over"""
+        buf = None
+        if self.fn.get("name") == "fromPayload":
+            buf = self.input
+        elif self.fn.get("name") == "fromBytes" and getattr(self, "wrapped", None) is not None:
+            buf = self.wrapped
+        if buf is None or not self.returned or not isinstance(buf.rem, E):
+            return
+        ok = self.env.prove_ge(const(0, "i32"), buf.rem)
+        self.obl("trailing-bytes", bool(ok), f"{self.cls['name']}.{self.fn['name']} returns an object while input may remain "
+                 f"(no `hasRemaining()` rejection on the path to the return)", role="whole-input")
+
     def finish(self):
+        self.consumed_obligation()
         out = []
         for it in self.items:
             if it["k"] == "cond2":
@@ -1416,7 +1463,7 @@ class JSer(JEval):
         class _W:
             pass
         w = _W()
-        w.nbytes, w.order, w.e, w.env, w.line, w.api = nbytes, (None if nbytes == 1 else self.order), e, self.env, 0, helper or "put"
+        w.nbytes, w.order, w.e, w.env, w.line, w.api = nbytes, (None if nbytes == 1 else (self.order if helper or not isinstance(buf, BufV) else self.eff_order(buf))), e, self.env, 0, helper or "put"
         from . import rslayout
         self.in_range(e, nbytes)
         it = rslayout.write_item(w)
@@ -1442,6 +1489,8 @@ class JSer(JEval):
                 return buf
             nb = {"put": 1, "putShort": 2, "putInt": 4, "putLong": 8}[name]
             return self.write(buf, self.as_int(a), nb) and buf
+        if name == "order" and args:
+            return self.set_order(buf, args)
         if name in ("order", "rewind", "flip"):
             return buf
         if name == "limit" and not args:
